@@ -23,7 +23,12 @@ def fits_selector(pfn, selector):
     fname = pfn
     # The tags may be given as a string, like for variables
     fcat = parse_tags(pfn.__annotations__.get("return", None))
-    fvars = pfn.__ptera_info__
+    fvars = getattr(pfn, "__ptera_info__", None)
+
+    if fvars is None:
+        # The function is not instrumented anymore (this is an activation
+        # that started when it was, e.g. a generator that is still running)
+        return False
 
     if not check_element(selector.element, fname, fcat):
         return False
